@@ -1,3 +1,4 @@
+import DSV.FactsOK.SrcC06
 import DSV.Generated.Facts
 /-! C06 — thresholds and stage tests of `outcome()` as extracted from the working tree. -/
 namespace DSV.Props.C06.Facts
